@@ -15,7 +15,11 @@ CFG = {
             "through the public accessors (GetCanonicalHash 0..max+2, GetTd, GetTxLookupEntry/GetTransaction/GetReceipt of every "
             "transaction of the tree, GetBlock/GetHeader/GetBody/GetReceiptsByHash, head pointers, state availability) and (a) judged "
             "directly against the statement of C03, (b) compared field by field with the Lean model replaying the same operations "
-            "(every coin resolution followed, filtered by the observed state). Non-trivial = every history (each performs imports).",
+            "(every coin resolution followed, filtered by the observed state). 35% of the trees are 'race' trees (long light branch, "
+            "shorter heavier branch) so that reorganisations to a SHORTER chain are frequent; one extra history per run imports 138 "
+            "blocks on a pruning node with the default-sized cache (state garbage collection during import) and is judged directly "
+            "only. The driver also checks the World hypothesis of the theorems (positive difficulty, no transaction twice along a chain) "
+            "on every generated tree. Non-trivial = every history (each performs imports).",
     "tie": {"BlockChain.WriteBlockWithState / insert / reorg": "corr (Go vs Model.Chain.writeBlockWithState)",
             "insertChain2 classification incl. ErrKnownBlock, ErrPrunedAncestor side-chain branch": "corr (Model.Chain.importOne)",
             "BlockChain.SetHead + HeaderChain.SetHead": "corr (Model.Chain.setHead / hSetHead)",
@@ -24,8 +28,12 @@ CFG = {
     "assumptions": ["Go runtime, math/big and the cryptographic primitives are modelled, not verified (DESIGN.md 2.5)",
                     "only valid blocks are imported (block validity is property C01); a transaction occurs at most once along one "
                     "chain (guaranteed by nonces; checked on every generated tree)",
-                    "histories stay below 128 blocks (triesInMemory): trie garbage collection during import is not modelled; "
-                    "state availability changes only at Stop+reopen",
+                    "modelled histories stay below 128 blocks (triesInMemory): trie garbage collection during import is not "
+                    "modelled (state availability changes only at Stop+reopen); longer chains are judged directly on the real code",
+                    "SetHead is covered by the theorems when the block it lands on still has its state (always on an archive node); "
+                    "otherwise the property FAILS (known finding sethead-stateless-leaves-index, Lean witness setHead_stateless_witness)",
+                    "after a rewind has orphaned side-chain blocks reorg may return 'invalid new chain': inv_reachable covers the "
+                    "histories in which it does not (Admissible); proved impossible without a rewind",
                     "distinct blocks have distinct state roots (every generated block has its own coinbase)"],
     "trusted_base": ["Model.Chain mirrors core/blockchain.go (insertChain2, WriteBlockWithState, WriteBlockWithoutState, reorg, insert, "
                      "SetHead, Stop) and core/headerchain.go (WriteHeader, InsertHeaderChain, SetHead) at the granularity of database "
@@ -34,7 +42,8 @@ CFG = {
 META = {
     "technique": "Lean 4 proof (invariant of the chain-database model preserved by import, reorganisation and rewind, by induction over "
                  "arbitrary operation histories) tied to core/ by differential correspondence on random histories",
-    "text": "Theorems inv_init, inv_insertBlock, inv_importChain, inv_setHead, inv_reopen, inv_reachable (and the header-chain analogues) "
+    "text": "Theorems inv_init, inv_insertBlock, inv_insertChain, inv_setHead, inv_reopen, inv_reachable, inv_reachable_imports, spec_of_inv "
+            "(and hinv_writeHeader, hinv_insertHeaderChain, hinv_setHead, hspec_reachable for header-first imports) "
             "show that in the Lean model of BlockChain/HeaderChain the number index is exactly the ancestry of the head, nothing is indexed "
             "above it, canonical blocks are retrievable and a lookup resolves iff the transaction is canonical, after every admissible "
             "history; every run re-checks them and replays hundreds of random histories on the real chain code and on the compiled model, "
